@@ -1,0 +1,6 @@
+//go:build verif && !android && !ios
+
+package safeprime
+
+// VerifPrepareBytes exposes prepareBytes for the verification harness in /verif.
+func VerifPrepareBytes(bytes []byte, b uint) { prepareBytes(bytes, b) }
